@@ -96,7 +96,7 @@ def prepare_specs(ctx, fixes):
     return d
 
 
-def mc(ctx, name, N, MaxConn, F, C, fixes, invs, spec="Spec", timeout=1700, count=True, workers=None):
+def mc(ctx, name, N, MaxConn, F, C, fixes, invs, spec="Spec", timeout=2400, count=True, workers=None, simulate=None):
     d = ctx.path("mc-" + name)
     os.makedirs(d, exist_ok=True)
     for f in ("WSMux.tla", "MC_WSMux.tla"):
@@ -106,6 +106,9 @@ def mc(ctx, name, N, MaxConn, F, C, fixes, invs, spec="Spec", timeout=1700, coun
     with open(os.path.join(d, cfg), "w") as f:
         f.write(MC_CFG % {"N": N, "MaxConn": MaxConn, "F": F, "C": C, "Fixes": tla_set(fixes),
                           "spec": spec, "invs": " ".join(invs)})
+    if simulate:
+        return ctx.tlc(d, "MC_WSMux", cfg, timeout=timeout, deadlock=False, count=count, tag="mc-" + name + "-simulate",
+                       workers=workers, simulate=simulate, depth=90, seed=ctx.seed)
     return ctx.tlc(d, "MC_WSMux", cfg, timeout=timeout, deadlock=True, count=count, tag="mc-" + name, workers=workers)
 
 
@@ -442,8 +445,10 @@ def _run(ctx):
             jobs["mc2"] = pool.submit(mc, ctx, "2", 2, mcn, 2, 1, fixes, pos, workers=6, timeout=900)
     else:
         if retrying:
-            jobs["mc2"] = pool.submit(mc, ctx, "2", 2, mcn, 1, 1, fixes, pos, workers=8)
-            jobs["mc2q"] = pool.submit(mc, ctx, "2q", 2, mcn, 2, 2, fixes, pos, spec="SpecQ", workers=4)
+            # full interleaving of the repaired protocol is 15-44 M states even for 2 subscribers (design.d/C18.md):
+            # exhaustive with a slow upstream, random behaviours with full interleaving
+            jobs["mc2"] = pool.submit(mc, ctx, "2", 2, mcn, 2, 2, fixes, pos, spec="SpecQ", workers=6)
+            jobs["mc2sim"] = pool.submit(mc, ctx, "2sim", 2, mcn, 2, 2, fixes, pos, workers=4, simulate=200000)
         else:
             jobs["mc2"] = pool.submit(mc, ctx, "2", 2, mcn, 3, 2, fixes, pos, workers=6)
         jobs["mc3q"] = pool.submit(mc, ctx, "3q", 3, mcn + 1, 1, 1, fixes, pos, spec="SpecQ", workers=6)
